@@ -1247,8 +1247,8 @@ static size_t get_span_text(TickitRenderBuffer *rb, RBCell *span, int offset, in
         if(buffer) {
           if(len < bytes)
             return -1;
-          strncpy(buffer, text + start.bytes, bytes);
-          buffer[bytes] = 0;
+          /* NUL termination, if there is room for it, happens below */
+          memcpy(buffer, text + start.bytes, bytes);
         }
         break;
       }
